@@ -58,8 +58,13 @@ def scan_trusted(unit, gen_src):
     return out
 
 
+# a property whose statement depends on another property's subject also owns that property's obligations:
+# C10 ("... and it passes header and block validation") includes the validation rules of C11 and C12
+PROP_INCLUDES = {"C10": ("C11", "C12")}
+
+
 def relevant(rec_props, pid):
-    return (not rec_props) or pid in rec_props
+    return (not rec_props) or pid in rec_props or any(q in rec_props for q in PROP_INCLUDES.get(pid, ()))
 
 
 def main():
